@@ -229,6 +229,13 @@ class ApplyMonitors:
             self.violation("C04", "undo.single_failed", dict(det, failed=(r.failed if r else err)))
             return
         if not self.doc_equal(r.doc, old):
+            if kind in ("addNodeMark", "removeNodeMark"):
+                node = old.node_at(step.pos)
+                same_type = [m for m in node.marks if m.type.name == step.mark.type.name]
+                got = r.doc.node_at(step.pos)
+                if len(same_type) >= 2 and got is not None and sorted(tk.marks_key(got.marks)) == sorted(
+                        tk.marks_key(node.marks)):
+                    det["shape"] = "same-type-mark-order"
             self.violation("C04", "undo.single_not_exact", dict(det, got=r.doc.to_json()))
             return
         if not r.doc.eq(old):
@@ -265,6 +272,27 @@ class ApplyMonitors:
             for d in tr.docs:
                 self.retain("doc", d)
             self.retain("transform", tr)
+            self.retain("mapping", tr.mapping)
+            for m in tr.mapping.maps[:4]:
+                self.retain("stepmap", m)
+            for st in tr.steps[:4]:
+                self.retain("step", st)
+                if hasattr(st, "slice") and st.slice.size:
+                    self.retain("slice", st.slice)
+                    self.retain("fragment", st.slice.content)
+            # mark sets and attrs of a few nodes of the new document (shared with older documents)
+            cnt = [0]
+
+            def visit(node, pos, parent, index):
+                if cnt[0] < 6 and (node.marks or (node.attrs and not node.is_text)):
+                    cnt[0] += 1
+                    if node.marks:
+                        self.retain("marks", node.marks)
+                    if node.attrs and not node.is_text:
+                        self.retain("attrs", node.attrs)
+                return cnt[0] < 6
+
+            tr.doc.descendants(visit)
         if "C05" in self.on and tr.steps:
             self.c05_parts(tr)
 
@@ -395,7 +423,7 @@ class ApplyMonitors:
             return False
         if ref.get("unjudged"):
             return same
-        if "C04" in self.on:
+        if "C04" in self.on and self.is_core():
             self.count("C04", ("rebase_undo", base_version, client.cid, self.dg(doc)))
             self.probes["C04.rebase_undo_checked"] += 1
             if not same:
